@@ -660,7 +660,14 @@ impl Installer for SimInstaller {
             };
             Pend::new(&shared, first, ()).await;
             for i in 0..n_progress {
-                let value = ((i + 1) as f32) / (n_progress as f32);
+                // progress fractions as an installer reports them: non-decreasing, may repeat
+                let value = {
+                    let _g = EnvGuard::enter();
+                    let mut w = lock(&shared);
+                    let rep = w.draws.draw(&format!("{label}/progress#{i}/repeat"), 4) == 3;
+                    let k = if rep && i > 0 { i } else { i + 1 };
+                    (k as f32) / (n_progress as f32)
+                };
                 {
                     let _g = EnvGuard::enter();
                     let mut w = lock(&shared);
